@@ -61,6 +61,16 @@ func (c *Ctx) TID(t types.Type) int {
 	return id
 }
 
+// TIDName assigns an id to a pseudo type that has no go/types representation here.
+func (c *Ctx) TIDName(s string) int {
+	if id, ok := c.tids[s]; ok {
+		return id
+	}
+	id := len(c.tids) + 1
+	c.tids[s] = id
+	return id
+}
+
 func (c *Ctx) Fresh(prefix, sort string) string {
 	c.fresh++
 	name := fmt.Sprintf("|%s!%d|", strings.Trim(prefix, "|"), c.fresh)
